@@ -495,7 +495,12 @@ class Peer:
         """Reads KEEPALIVE message using async I/O"""
         assert self.proto is not None
         assert self.recv_timer is not None
-        message = await self.proto.read_keepalive()
+        # RFC 4271 8.2.2: the hold timer also runs in OpenConfirm (a zero hold time disables it)
+        holdtime = int(self.proto.negotiated.holdtime)
+        try:
+            message = await asyncio.wait_for(self.proto.read_keepalive(), timeout=holdtime if holdtime else None)
+        except asyncio.TimeoutError:
+            raise Notify(4, 0, 'hold timer expired while waiting for the first keepalive') from None
         self.recv_timer.check_ka_timer(message)
 
     async def _establish(self) -> None:
